@@ -542,6 +542,7 @@ impl<'tcx> Cx<'tcx> {
                                 (v, _) => v,
                             }
                         }
+                        hir::PatExprKind::Path(qp) => self.qpath(qp, pe.hir_id),
                         _ => J::Null,
                     }
                 };
